@@ -391,12 +391,19 @@ def _gen_methods(cx, pkg, main, svc, noun, res, enums, msgs):
                   {"name": f"{low}_id", "number": 3, "type": "string"}]
         if rng.random() < 0.4:
             fields.append({"name": "validate_only", "number": 4, "type": "bool"})
+        if rng.random() < 0.3:
+            # naming coincidence: a required scalar whose name occurs inside the body field's name (wid / widget)
+            fields.append({"name": low[:max(2, len(low) // 2)], "number": 5, "type": rng.choice(["int32", "string", "bool"]), "required": True})
         _msg(main, f"Create{noun}Request", fields)
         m = {"name": f"Create{noun}", "input": f"{P}.Create{noun}Request", "output": P + "." + noun}
         if cx.chance("p_http"):
             m["http"] = {"verb": "post", "path": f"{pre}/{{parent={pwild}}}/{coll}", "body": low}
         if cx.chance("p_signature"):
-            m["signatures"] = [f"parent,{low},{low}_id"] + (["parent," + low] if rng.random() < 0.5 else [])
+            m["signatures"] = rng.choice([
+                [f"parent,{low},{low}_id"], [f"parent,{low},{low}_id", "parent," + low],
+                [f"parent,{low}_id", f"parent,{low},{low}_id"],          # a later signature adds a path whose text occurs inside an earlier one
+                ["parent", f"parent,{low},{low}_id"],                    # a later signature adds two new paths
+                [f"{low}_id", f"parent,{low}"]])
         svc["methods"].append(m)
 
     if cx.chance("p_update"):
@@ -801,6 +808,14 @@ def gen_routing(rng, res, field="name"):
         {"field": field, "path_template": "{routing_id=projects/*/" + wild[2] + "/*}" + ("/**" if len(segs) > 4 else "")},
         {"field": field, "path_template": "{" + segs[-2][:-1] + "_id=" + "/".join(wild) + "}"},
     ]
+    c = rng.random()
+    if c < 0.12:
+        a, b = shapes[1], shapes[2]           # same key routing_id, both can match with different captures
+        return [dict(a), dict(b), dict(a)] if rng.random() < 0.5 else [dict(b), dict(a), dict(b)]
+    if c < 0.24 and "." not in field:
+        # a parameter WITHOUT template (key = field name) listed before / after a templated one with the same key
+        t = {"field": field, "path_template": "{" + field + "=projects/*}/**"}
+        return [{"field": field}, t] if rng.random() < 0.6 else [t, {"field": field}]
     n = rng.randint(1, 3)
     return [dict(rng.choice(shapes)) for _ in range(n)]
 
